@@ -30,6 +30,14 @@ PROPERTY C10_Terminates
 """
 
 
+class _WriteOnly:
+    def __init__(self):
+        self.parts = []
+
+    def write(self, x):
+        self.parts.append(x)
+
+
 def run_stream(ck):
     from jinja2.environment import TemplateStream
 
@@ -60,6 +68,17 @@ def run_stream(ck):
         bio = io.BytesIO()
         st2.dump(bio, encoding="utf-8")
         dumped = bio.getvalue().decode("utf-8")
+        # a target that only has write(): every chunk arrives on its own, encoded when an encoding is given
+        for enc in (None, "utf-8"):
+            sink = _WriteOnly()
+            st3 = TemplateStream(iter(pieces))
+            st3.enable_buffering(size)
+            st3.dump(sink, encoding=enc)
+            want_t = str if enc is None else bytes
+            if not all(type(x) is want_t for x in sink.parts):
+                dumped = f"write-only target, encoding={enc}: got {[type(x).__name__ for x in sink.parts][:4]} chunks"
+            elif (("".join(sink.parts)) if enc is None else b"".join(sink.parts).decode(enc)) != "".join(pieces):
+                dumped = f"write-only target, encoding={enc}: got {sink.parts!r:.80}"
         if got != expected or dumped != "".join(pieces):
             ck.violation({"kind": "stream", "pieces": pieces, "size": size, "expected": expected, "actual": got,
                           "dumped": dumped},
